@@ -839,6 +839,10 @@ impl<'b> InnerBucket<'b> {
                 }
                 // Handle root node speially
                 if node.page_id == self.meta.root_page {
+                    // If every child of the root node was emptied and removed, start over with an empty leaf
+                    if !node.leaf() && node.data.len() == 0 {
+                        node.data = NodeData::Leaves(Vec::new());
+                    }
                     // If the root node has only one branch, promote that page to the root page
                     if !node.leaf() && node.data.len() == 1 {
                         // delete the root node
@@ -871,7 +875,9 @@ impl<'b> InnerBucket<'b> {
                         // since there are no siblings to move the data to.
                         // When we handle the parent, it will get merged with it's siblings or promoted
                         // to root.
-                        if branches.len() == 1 {
+                        // An empty node is removed anyway, so no branch is left pointing at it;
+                        // the parent is then empty itself and gets removed in turn.
+                        if branches.len() == 1 && node.data.len() > 0 {
                             continue;
                         }
                         // check if there is any data left to copy
